@@ -127,6 +127,67 @@ def match_known(prop, violation, known):
     return None
 
 
+# --------------------------------------------------------------- isolation
+
+class ChildFailed(Exception):
+    pass
+
+
+def forked(fn, timeout=600):
+    """Run fn() in a forked child of this process and return its (picklable)
+    result.  Used where the state of THIS process must not be touched by the
+    call -- a reference outcome that has to come from an interpreter in which
+    nothing else was rendered before, or a whole case that must start from the
+    state right after warm-up, so that replay of that case alone sees exactly
+    what the batch saw.  The child has one thread; the caller must not hold
+    locks.  An exception in the child is re-raised here as ChildFailed."""
+    import faulthandler
+    import pickle
+    rd, wr = os.pipe()
+    sys.stdout.flush()
+    sys.stderr.flush()
+    # a watchdog thread armed at fork time would leave its lock held in the
+    # child for ever (CPython: dump_traceback_later after fork deadlocks):
+    # disarm, fork, re-arm on both sides
+    faulthandler.cancel_dump_traceback_later()
+    pid = os.fork()
+    if pid == 0:
+        code = 0
+        try:
+            os.close(rd)
+            faulthandler.enable()
+            faulthandler.dump_traceback_later(timeout, exit=True)
+            try:
+                out = ('ok', fn())
+            except BaseException:
+                out = ('exc', traceback.format_exc()[-3000:])
+            data = pickle.dumps(out, protocol=pickle.HIGHEST_PROTOCOL)
+            with os.fdopen(wr, 'wb') as f:
+                f.write(data)
+        except BaseException:
+            code = 3
+        finally:
+            os._exit(code)
+    os.close(wr)
+    faulthandler.dump_traceback_later(timeout + 60, exit=True)
+    chunks = []
+    with os.fdopen(rd, 'rb') as f:
+        while True:
+            b = f.read(1 << 20)
+            if not b:
+                break
+            chunks.append(b)
+    _, status = os.waitpid(pid, 0)
+    data = b''.join(chunks)
+    if not data:
+        raise ChildFailed('forked child died without a result (status %r)'
+                          % (status,))
+    kind, val = pickle.loads(data)
+    if kind != 'ok':
+        raise ChildFailed(val)
+    return val
+
+
 # ------------------------------------------------------------------ worker
 
 class Agg:
